@@ -13,6 +13,9 @@ def body(ck, F, cfg):
     PR.check_rng(ck, F, pv)
     PR.check_nonces(ck, F, pv)
     PR.check_determinism(ck, F, pv)
+    from .common import hidden_effects_rule
+
+    hidden_effects_rule(ck, F, "R09.6")  # no draw hidden in drop glue / clone / == / deref (see C06 R06.8)
     ck.sample({"nonces": {k: str(v) for k, v in pv.nz.items() if not callable(v) and k != "taus"}, "taus": {k: str(v) for k, v in (pv.nz.get("taus") or {}).items()}})
     ck.floor("blinding-base terms", len([o for o in ck.obligations if o[1].startswith("fresh:")]), 11)
     ck.floor("masking vectors", len([o for o in ck.obligations if o[1].startswith("fresh-vector:")]), 4)
